@@ -212,7 +212,8 @@ class Ctx:
         }
         # evidence describes runs against /repo itself; runs pointed at a scratch tree (VERIF_REPO, used when
         # trying seeded changes) must not overwrite it
-        evdir = os.path.join(VERIF, "evidence") if REPO == "/repo" else os.path.join(tempfile.gettempdir(), "verif-evidence-scratch")
+        # ... and neither must the replay of a single case (its "coverage" is that one case)
+        evdir = os.path.join(VERIF, "evidence") if REPO == "/repo" and not getattr(self, "replaying", False) else os.path.join(tempfile.gettempdir(), "verif-evidence-scratch")
         os.makedirs(evdir, exist_ok=True)
         with open(os.path.join(evdir, self.prop + ".json"), "w") as f:
             json.dump(ev, f, indent=1, sort_keys=True)
